@@ -1,1 +1,651 @@
-pub fn main() { eprintln!("c31: not built yet"); std::process::exit(2); }
+//! C31 — dynamic filters.
+//!  mode filter: DynFilter.tla sequential histories replayed on the real DynamicFilterPhysicalExpr
+//!               (base + filters derived by with_new_children) and a multi-thread stress run whose
+//!               oracle is the specification's NotStale invariant.
+//!  mode e2e:    DynPushGen.tla cases (joins of every SQL join type, ORDER BY .. LIMIT k) and seeded
+//!               larger random tables executed over Parquet with dynamic filter pushdown on and off.
+
+use arrow::array::{ArrayRef, Int64Array, RecordBatch, StringArray};
+use arrow::datatypes::{DataType, Field, Schema, SchemaRef};
+use datafusion::prelude::{ParquetReadOptions, SessionConfig, SessionContext};
+use datafusion_common::ScalarValue;
+use datafusion_expr::Operator;
+use datafusion_physical_expr::PhysicalExpr;
+use datafusion_physical_expr::expressions::{BinaryExpr, Column, DynamicFilterPhysicalExpr, Literal};
+use rand::rngs::StdRng;
+use rand::{Rng, SeedableRng};
+use serde_json::{Value, json};
+use std::future::Future;
+use std::sync::Arc;
+use std::sync::atomic::{AtomicBool, AtomicU64, Ordering};
+use std::task::{Context, Poll};
+use vcommon::util;
+
+// ------------------------------------------------------------------------------------------ layer (a)
+
+fn schema3() -> SchemaRef {
+    Arc::new(Schema::new(vec![Field::new("a", DataType::Int64, true), Field::new("b", DataType::Int64, true), Field::new("c", DataType::Int64, true)]))
+}
+
+fn token_expr(k: i64) -> Arc<dyn PhysicalExpr> {
+    Arc::new(BinaryExpr::new(Arc::new(Column::new("a", 0)), Operator::Eq, Arc::new(Literal::new(ScalarValue::Int64(Some(k))))))
+}
+
+/// (column name, column index, token) of an expression `col = literal`
+fn parse(e: &Arc<dyn PhysicalExpr>) -> Result<(String, usize, i64), String> {
+    let b = e.downcast_ref::<BinaryExpr>().ok_or_else(|| format!("not a binary expression: {e}"))?;
+    let c = b.left().downcast_ref::<Column>().ok_or_else(|| format!("left side is not a column: {e}"))?;
+    let l = b.right().downcast_ref::<Literal>().ok_or_else(|| format!("right side is not a literal: {e}"))?;
+    match l.value() {
+        ScalarValue::Int64(Some(v)) => Ok((c.name().to_string(), c.index(), v.to_owned())),
+        o => Err(format!("unexpected literal {o:?}")),
+    }
+}
+
+const COLS: [(&str, usize); 3] = [("a", 0), ("b", 1), ("c", 2)];
+
+fn mk_filters(nf: usize) -> (Arc<DynamicFilterPhysicalExpr>, Vec<Arc<dyn PhysicalExpr>>) {
+    let base = Arc::new(DynamicFilterPhysicalExpr::new(vec![Arc::new(Column::new("a", 0)) as Arc<dyn PhysicalExpr>], token_expr(0)));
+    let mut fs: Vec<Arc<dyn PhysicalExpr>> = vec![base.clone()];
+    for f in 1..nf {
+        let (n, i) = COLS[f % 3];
+        // derive from the previous filter (chains of with_new_children), alternating with the base
+        let src: Arc<dyn PhysicalExpr> = if f % 2 == 0 { fs[f - 1].clone() } else { base.clone() };
+        fs.push(src.with_new_children(vec![Arc::new(Column::new(n, i)) as Arc<dyn PhysicalExpr>]).expect("with_new_children"));
+    }
+    (base, fs)
+}
+
+fn dynf(e: &Arc<dyn PhysicalExpr>) -> &DynamicFilterPhysicalExpr {
+    e.downcast_ref::<DynamicFilterPhysicalExpr>().expect("derived filter is a DynamicFilterPhysicalExpr")
+}
+
+fn poll_once<F: Future>(f: std::pin::Pin<&mut F>) -> Poll<F::Output> {
+    let w = futures::task::noop_waker();
+    let mut cx = Context::from_waker(&w);
+    f.poll(&mut cx)
+}
+
+fn run_filter_history(case: &Value, rng: &mut StdRng, checks: &mut u64) -> Result<(), String> {
+    let nf = case["nf"].as_u64().unwrap() as usize;
+    let (_base, fs) = mk_filters(nf);
+    let batch = RecordBatch::try_new(
+        schema3(),
+        vec![Arc::new(Int64Array::from(vec![0, 1, 2, 3])) as ArrayRef, Arc::new(Int64Array::from(vec![3, 2, 1, 0])), Arc::new(Int64Array::from(vec![1, 1, 2, 2]))],
+    )
+    .unwrap();
+    let id0 = fs[0].expression_id();
+    let mut complete = false;
+    for (i, op) in case["ops"].as_array().unwrap().iter().enumerate() {
+        let val = op["val"].as_i64().unwrap();
+        let g = op["gen"].as_u64().unwrap();
+        match op["op"].as_str().unwrap() {
+            "update" => {
+                // a waiter registered before the update must be released by it, and only by it
+                let wf = dynf(&fs[rng.random_range(0..nf)]);
+                let mut w = Box::pin(wf.wait_update());
+                if poll_once(w.as_mut()).is_ready() {
+                    return Err(format!("op {}: wait_update() returned although no update happened", i + 1));
+                }
+                // producers update through the original filter (update() through a derived filter would
+                // pre-remap the stored expression for everybody)
+                dynf(&fs[0]).update(token_expr(val)).map_err(|e| format!("update failed: {e}"))?;
+                if !poll_once(w.as_mut()).is_ready() {
+                    return Err(format!("op {}: wait_update() still pending after update()", i + 1));
+                }
+            }
+            "mark_complete" => {
+                let wf = dynf(&fs[rng.random_range(0..nf)]);
+                let mut w = Box::pin(wf.wait_complete());
+                if !complete && poll_once(w.as_mut()).is_ready() {
+                    return Err(format!("op {}: wait_complete() returned before mark_complete()", i + 1));
+                }
+                dynf(&fs[rng.random_range(0..nf)]).mark_complete();
+                complete = true;
+                if !poll_once(w.as_mut()).is_ready() {
+                    return Err(format!("op {}: wait_complete() still pending after mark_complete()", i + 1));
+                }
+                let mut w2 = Box::pin(dynf(&fs[0]).wait_complete());
+                if !poll_once(w2.as_mut()).is_ready() {
+                    return Err(format!("op {}: wait_complete() after completion does not return immediately", i + 1));
+                }
+            }
+            _ => {
+                let f = op["f"].as_u64().unwrap() as usize - 1;
+                let d = dynf(&fs[f]);
+                let (want_name, want_idx) = if f == 0 { COLS[0] } else { COLS[f % 3] };
+                let which = rng.random_range(0..3);
+                let e = match which {
+                    0 => d.current().map_err(|e| format!("current failed: {e}"))?,
+                    1 => fs[f].snapshot().map_err(|e| format!("snapshot failed: {e}"))?.ok_or("snapshot returned None")?,
+                    _ => d.current().map_err(|e| format!("current failed: {e}"))?,
+                };
+                let (n, ix, tok) = parse(&e)?;
+                *checks += 1;
+                if tok != val {
+                    return Err(format!("op {}: current() of filter {} returned the expression of update {tok}; the specification expects update {val} (generation {g})", i + 1, f + 1));
+                }
+                if n != want_name || ix != want_idx {
+                    return Err(format!("op {}: filter {} returned column {n}@{ix}; its children were remapped to {want_name}@{want_idx}", i + 1, f + 1));
+                }
+                if fs[f].snapshot_generation() != g {
+                    return Err(format!("op {}: snapshot_generation()={} ; the specification expects {g}", i + 1, fs[f].snapshot_generation()));
+                }
+                if which == 2 {
+                    // evaluating the filter = evaluating the current expression
+                    let got = fs[f].evaluate(&batch).and_then(|v| v.into_array(4)).map_err(|e| format!("evaluate failed: {e}"))?;
+                    let want = e.evaluate(&batch).and_then(|v| v.into_array(4)).map_err(|e| format!("evaluate failed: {e}"))?;
+                    let col = batch.column(want_idx).as_any().downcast_ref::<Int64Array>().unwrap();
+                    let manual: Vec<Option<bool>> = (0..4).map(|r| Some(col.value(r) == val)).collect();
+                    let manual: ArrayRef = Arc::new(arrow::array::BooleanArray::from(manual));
+                    if got.to_data() != want.to_data() || got.to_data() != manual.to_data() {
+                        return Err(format!("op {}: evaluate() of filter {} differs from {want_name} = {val}", i + 1, f + 1));
+                    }
+                }
+                if fs[f].expression_id() != id0 {
+                    return Err(format!("op {}: derived filter reports a different expression_id", i + 1));
+                }
+            }
+        }
+    }
+    Ok(())
+}
+
+/// Real threads: `nw` writers install increasing tokens, readers call current() on base and derived
+/// filters.  Oracle (sound for any schedule): with generation g0 read *before* the call, the returned
+/// token's generation is >= g0 (single writer: generation = token + 1); per writer the tokens a reader
+/// sees never go backwards; the remap matches the filter.
+fn stress(seed: u64, nw: usize, nr: usize, updates: usize) -> Result<(u64, u64), String> {
+    let (_base, fs) = mk_filters(3);
+    let fs = Arc::new(fs);
+    let stop = Arc::new(AtomicBool::new(false));
+    let reads = Arc::new(AtomicU64::new(0));
+    let slow_path = Arc::new(AtomicU64::new(0));
+    let mut hs = vec![];
+    for r in 0..nr {
+        let fs = fs.clone();
+        let stop = stop.clone();
+        let reads = reads.clone();
+        hs.push(std::thread::spawn(move || -> Result<(), String> {
+            let mut rng = StdRng::seed_from_u64(seed * 31 + r as u64);
+            let mut last = vec![vec![-1i64; nw]; 3];
+            loop {
+                let done = stop.load(Ordering::Acquire);
+                let f = rng.random_range(0..3usize);
+                let d = dynf(&fs[f]);
+                let g0 = fs[f].snapshot_generation();
+                let e = d.current().map_err(|e| e.to_string())?;
+                let (n, ix, tok) = parse(&e)?;
+                reads.fetch_add(1, Ordering::Relaxed);
+                let (wn, wi) = if f == 0 { COLS[0] } else { COLS[f % 3] };
+                if n != wn || ix != wi {
+                    return Err(format!("reader {r}: filter {} returned column {n}@{ix}, expected {wn}@{wi}", f + 1));
+                }
+                if tok > 0 {
+                    let w = (tok / 1_000_000) as usize;
+                    let k = tok % 1_000_000;
+                    if k < last[f][w] {
+                        return Err(format!("reader {r}: filter {} went backwards: update {k} of writer {w} after update {}", f + 1, last[f][w]));
+                    }
+                    last[f][w] = k;
+                    if nw == 1 && (k as u64 + 1) < g0 {
+                        return Err(format!("reader {r}: current() returned generation {} but generation {g0} was visible before the call", k + 1));
+                    }
+                } else if g0 > 1 {
+                    return Err(format!("reader {r}: current() returned the initial expression but generation {g0} was visible before the call"));
+                }
+                if done {
+                    return Ok(());
+                }
+                if rng.random_range(0..16) == 0 {
+                    std::thread::yield_now();
+                }
+            }
+        }));
+    }
+    let mut ws = vec![];
+    for w in 0..nw {
+        let fs = fs.clone();
+        ws.push(std::thread::spawn(move || {
+            let mut rng = StdRng::seed_from_u64(seed * 77 + w as u64);
+            for k in 1..=updates {
+                dynf(&fs[0]).update(token_expr((w * 1_000_000 + k) as i64)).unwrap();
+                if rng.random_range(0..4) == 0 {
+                    std::thread::yield_now();
+                }
+            }
+        }));
+    }
+    for w in ws {
+        w.join().map_err(|_| "writer panicked".to_string())?;
+    }
+    stop.store(true, Ordering::Release);
+    for h in hs {
+        h.join().map_err(|_| "reader panicked".to_string())??;
+    }
+    // quiescent: every filter now returns the last installed generation
+    let gfin = fs[0].snapshot_generation();
+    if gfin != (nw * updates) as u64 + 1 {
+        return Err(format!("final generation {gfin}, expected {}", nw * updates + 1));
+    }
+    for f in 0..3 {
+        let (_, _, tok) = parse(&dynf(&fs[f]).current().map_err(|e| e.to_string())?)?;
+        if nw == 1 && tok != updates as i64 {
+            return Err(format!("after all updates filter {} returns update {tok}, expected {updates}", f + 1));
+        }
+    }
+    let _ = slow_path;
+    Ok((reads.load(Ordering::Relaxed), gfin))
+}
+
+fn filter_mode(cases: &[Value], seed: u64) -> Value {
+    let mut violations = vec![];
+    let mut evals = 0u64;
+    let mut checks = 0u64;
+    let mut samples = vec![];
+    for (ci, case) in cases.iter().enumerate() {
+        let mut rng = StdRng::seed_from_u64(seed * 9_999_991 + ci as u64);
+        match run_filter_history(case, &mut rng, &mut checks) {
+            Ok(()) => {
+                evals += 1;
+                if samples.len() < 1 && ci == cases.len() / 2 {
+                    samples.push(json!({"case": case, "observed": "every current()/snapshot()/evaluate() returned the expected generation and remap"}));
+                }
+            }
+            Err(m) => {
+                if violations.len() < 10 {
+                    violations.push(json!({"kind": "filter", "violation": {"case": case, "message": m}, "case_index": ci, "harness_seed": seed}));
+                }
+            }
+        }
+    }
+    let quick = util::tier_quick();
+    let mut stress_runs = 0u64;
+    let mut stress_reads = 0u64;
+    for i in 0..(if quick { 12 } else { 80 }) {
+        let (nw, nr) = [(1usize, 3usize), (2, 2), (1, 2), (3, 3)][i % 4];
+        match stress(seed * 1000 + i as u64, nw, nr, if quick { 400 } else { 3000 }) {
+            Ok((r, _)) => {
+                stress_runs += 1;
+                stress_reads += r;
+            }
+            Err(m) => {
+                if violations.len() < 10 {
+                    violations.push(json!({"kind": "stress", "violation": {"case": {"writers": nw, "readers": nr, "seed": seed * 1000 + i as u64}, "message": m}, "case_index": i, "harness_seed": seed}));
+                }
+            }
+        }
+    }
+    json!({"evaluations": evals, "current_checks": checks, "stress_runs": stress_runs, "stress_reads": stress_reads, "violations": violations, "samples": samples, "tool_errors": []})
+}
+
+// ------------------------------------------------------------------------------------- layers (b)/(c)
+
+#[derive(Clone, Debug)]
+struct Knobs {
+    dynf: bool,
+    tp: usize,
+    pushdown: bool,
+    partitioned: bool,
+    inlist_small: bool,
+    batch: usize,
+}
+
+fn session(k: &Knobs) -> SessionContext {
+    let mut cfg = SessionConfig::new().with_target_partitions(k.tp).with_batch_size(k.batch);
+    cfg = cfg
+        .set_bool("datafusion.optimizer.enable_dynamic_filter_pushdown", k.dynf)
+        .set_bool("datafusion.execution.parquet.pushdown_filters", k.pushdown)
+        .set_bool("datafusion.optimizer.prefer_hash_join", true)
+        .set_bool("datafusion.optimizer.repartition_joins", true)
+        .set_usize("datafusion.optimizer.hash_join_single_partition_threshold", if k.partitioned { 0 } else { 1 << 30 })
+        .set_usize("datafusion.optimizer.hash_join_single_partition_threshold_rows", if k.partitioned { 0 } else { 1 << 30 });
+    if k.inlist_small {
+        cfg = cfg.set_usize("datafusion.optimizer.hash_join_inlist_pushdown_max_distinct_values", 1).set_usize("datafusion.optimizer.hash_join_inlist_pushdown_max_size", 0);
+    }
+    SessionContext::new_with_config(cfg)
+}
+
+struct Table {
+    cols: Vec<(String, ArrayRef)>,
+}
+
+fn write_table(dir: &std::path::Path, t: &Table, files: usize, rg: usize) -> Result<(), String> {
+    use datafusion::parquet::arrow::ArrowWriter;
+    use datafusion::parquet::file::properties::WriterProperties;
+    std::fs::create_dir_all(dir).map_err(|e| e.to_string())?;
+    let schema = Arc::new(Schema::new(t.cols.iter().map(|(n, a)| Field::new(n, a.data_type().clone(), true)).collect::<Vec<_>>()));
+    let batch = RecordBatch::try_new(schema.clone(), t.cols.iter().map(|(_, a)| a.clone()).collect()).map_err(|e| e.to_string())?;
+    let n = batch.num_rows();
+    let per = n.div_ceil(files.max(1)).max(1);
+    for f in 0..files.max(1) {
+        let lo = (f * per).min(n);
+        let hi = ((f + 1) * per).min(n);
+        let part = batch.slice(lo, hi - lo);
+        let file = std::fs::File::create(dir.join(format!("part-{f}.parquet"))).map_err(|e| e.to_string())?;
+        let props = WriterProperties::builder().set_max_row_group_row_count(Some(rg)).build();
+        let mut w = ArrowWriter::try_new(file, schema.clone(), Some(props)).map_err(|e| e.to_string())?;
+        w.write(&part).map_err(|e| e.to_string())?;
+        w.close().map_err(|e| e.to_string())?;
+    }
+    Ok(())
+}
+
+fn render(batches: &[RecordBatch]) -> Vec<String> {
+    let mut out = vec![];
+    for b in batches {
+        for r in 0..b.num_rows() {
+            let mut s = String::new();
+            for c in 0..b.num_columns() {
+                let a = b.column(c);
+                if c > 0 {
+                    s.push('|');
+                }
+                if a.is_null(r) {
+                    s.push('N');
+                } else if let Some(x) = a.as_any().downcast_ref::<Int64Array>() {
+                    s.push_str(&x.value(r).to_string());
+                } else if let Some(x) = a.as_any().downcast_ref::<StringArray>() {
+                    s.push_str(x.value(r));
+                } else if let Some(x) = a.as_any().downcast_ref::<arrow::array::StringViewArray>() {
+                    s.push_str(x.value(r));
+                } else {
+                    s.push_str(&arrow::util::display::array_value_to_string(a, r).unwrap_or_default());
+                }
+            }
+            out.push(s);
+        }
+    }
+    out
+}
+
+fn pruned(plan: &Arc<dyn datafusion::physical_plan::ExecutionPlan>) -> u64 {
+    let mut n = 0u64;
+    if let Some(m) = plan.metrics() {
+        for name in ["pushdown_rows_pruned", "row_groups_pruned_statistics", "files_ranges_pruned_statistics", "page_index_rows_pruned"] {
+            // pruning metrics carry (pruned, matched) pairs or plain counts depending on the metric; the
+            // rendered text is the stable interface
+            for x in m.iter().filter(|x| x.value().name() == name) {
+                let t = x.value().to_string();
+                let first = t.split(|c: char| !c.is_ascii_digit()).find(|p| !p.is_empty()).and_then(|p| p.parse::<u64>().ok()).unwrap_or(0);
+                n += first;
+            }
+        }
+    }
+    for c in plan.children() {
+        n += pruned(c);
+    }
+    n
+}
+
+struct RunOut {
+    pruned: u64,
+    rows: Vec<String>,
+    plan_has_dynf: bool,
+    dynf_populated: bool,
+}
+
+fn run_sql(rt: &tokio::runtime::Runtime, k: &Knobs, tables: &[(&str, &std::path::Path)], sql: &str) -> Result<RunOut, String> {
+    rt.block_on(async {
+        let ctx = session(k);
+        for (n, p) in tables {
+            ctx.register_parquet(*n, p.to_str().unwrap(), ParquetReadOptions::default()).await.map_err(|e| format!("register {n}: {e}"))?;
+        }
+        let df = ctx.sql(sql).await.map_err(|e| format!("planning failed: {e}"))?;
+        let plan = df.create_physical_plan().await.map_err(|e| format!("physical planning failed: {e}"))?;
+        let before = datafusion::physical_plan::displayable(plan.as_ref()).indent(false).to_string();
+        let res = datafusion::physical_plan::collect(plan.clone(), ctx.task_ctx()).await.map_err(|e| format!("execution failed: {e}"))?;
+        let after = datafusion::physical_plan::displayable(plan.as_ref()).indent(false).to_string();
+        Ok(RunOut { pruned: pruned(&plan), rows: render(&res), plan_has_dynf: before.contains("DynamicFilter"), dynf_populated: after.contains("DynamicFilter [") && !after.contains("DynamicFilter [ empty ]") })
+    })
+}
+
+fn val(v: &Value) -> Option<i64> {
+    if v["k"] == "n" { None } else { Some(v["v"].as_i64().unwrap()) }
+}
+
+fn table_from_rows(rows: &Value, names: [&str; 2]) -> Table {
+    let rows = rows.as_array().unwrap();
+    let k: Vec<Option<i64>> = rows.iter().map(|r| val(&r[0])).collect();
+    let id: Vec<Option<i64>> = rows.iter().map(|r| val(&r[1])).collect();
+    Table { cols: vec![(names[0].to_string(), Arc::new(Int64Array::from(k))), (names[1].to_string(), Arc::new(Int64Array::from(id)))] }
+}
+
+fn join_sql(jt: &str, keys: &[&str]) -> String {
+    let on = keys.iter().map(|k| format!("l.{k} = r.{k}")).collect::<Vec<_>>().join(" AND ");
+    let lcols = keys.iter().map(|k| format!("l.{k}")).collect::<Vec<_>>().join(", ");
+    let rcols = keys.iter().map(|k| format!("r.{k}")).collect::<Vec<_>>().join(", ");
+    match jt {
+        "Inner" => format!("SELECT {lcols}, l.id, {rcols}, r.id FROM l JOIN r ON {on}"),
+        "Left" => format!("SELECT {lcols}, l.id, {rcols}, r.id FROM l LEFT JOIN r ON {on}"),
+        "Right" => format!("SELECT {lcols}, l.id, {rcols}, r.id FROM l RIGHT JOIN r ON {on}"),
+        "Full" => format!("SELECT {lcols}, l.id, {rcols}, r.id FROM l FULL JOIN r ON {on}"),
+        "LeftSemi" => format!("SELECT {lcols}, l.id FROM l LEFT SEMI JOIN r ON {on}"),
+        "LeftAnti" => format!("SELECT {lcols}, l.id FROM l LEFT ANTI JOIN r ON {on}"),
+        "RightSemi" => format!("SELECT {rcols}, r.id FROM l RIGHT SEMI JOIN r ON {on}"),
+        _ => format!("SELECT {rcols}, r.id FROM l RIGHT ANTI JOIN r ON {on}"),
+    }
+}
+
+fn all_knobs(rng: &mut StdRng, full: bool) -> Vec<Knobs> {
+    let mut v = vec![];
+    let combos: Vec<(usize, bool)> = if full { vec![(1, false), (2, false), (2, true), (4, true)] } else { vec![(1, false), (3, true), (2, false)] };
+    for (tp, partitioned) in combos {
+        v.push(Knobs { dynf: true, tp, pushdown: rng.random_bool(0.7), partitioned, inlist_small: rng.random_bool(0.4), batch: [2usize, 7, 8192][rng.random_range(0..3)] });
+    }
+    v
+}
+
+#[derive(Default)]
+struct E2e {
+    evals: u64,
+    queries: u64,
+    on_runs: u64,
+    plans_with_dynf: u64,
+    populated: u64,
+    runs_scan_pruned: u64,
+    join_types: std::collections::BTreeMap<String, u64>,
+    violations: Vec<Value>,
+    samples: Vec<Value>,
+    distinct: std::collections::HashSet<String>,
+}
+
+fn viol(e: &mut E2e, case: Value, knobs: &Knobs, sql: &str, msg: String, ci: usize, seed: u64) {
+    if e.violations.len() < 10 {
+        e.violations.push(json!({"kind": "e2e", "violation": {"case": case, "sql": sql, "knobs": format!("{knobs:?}"), "message": msg}, "case_index": ci, "harness_seed": seed}));
+    }
+}
+
+fn e2e_case(rt: &tokio::runtime::Runtime, e: &mut E2e, case: &Value, ci: usize, seed: u64, full: bool) -> Result<(), String> {
+    let mut rng = StdRng::seed_from_u64(seed * 7_654_321 + ci as u64);
+    let tmp = tempfile::tempdir().map_err(|e| e.to_string())?;
+    let kind = case["kind"].as_str().unwrap();
+    let (ldir, rdir) = (tmp.path().join("l"), tmp.path().join("r"));
+    let lt = table_from_rows(&case["l"], ["k", "id"]);
+    write_table(&ldir, &lt, rng.random_range(1..=3), 2)?;
+    let sql;
+    let mut tables: Vec<(&str, &std::path::Path)> = vec![("l", ldir.as_path())];
+    let ordered = kind == "topk";
+    if kind == "join" {
+        let rt_ = table_from_rows(&case["r"], ["k", "id"]);
+        write_table(&rdir, &rt_, rng.random_range(1..=3), 2)?;
+        tables.push(("r", rdir.as_path()));
+        sql = join_sql(case["jt"].as_str().unwrap(), &["k"]);
+        *e.join_types.entry(case["jt"].as_str().unwrap().to_string()).or_default() += 1;
+    } else {
+        let desc = case["desc"].as_bool().unwrap();
+        let nf = case["nf"].as_bool().unwrap();
+        sql = format!("SELECT k, id FROM l ORDER BY k {} NULLS {}, id LIMIT {}", if desc { "DESC" } else { "ASC" }, if nf { "FIRST" } else { "LAST" }, case["k"]);
+        *e.join_types.entry("topk".into()).or_default() += 1;
+    }
+    let mut expect: Vec<String> = case["expect"].as_array().unwrap().iter().map(|r| r.as_array().unwrap().iter().map(|v| val(v).map(|x| x.to_string()).unwrap_or("N".into())).collect::<Vec<_>>().join("|")).collect();
+    if !ordered {
+        expect.sort();
+    }
+    for k in all_knobs(&mut rng, full) {
+        for dynf in [false, true] {
+            let k = Knobs { dynf, ..k.clone() };
+            e.queries += 1;
+            let out = match run_sql(rt, &k, &tables, &sql) {
+                Ok(o) => o,
+                Err(m) => {
+                    viol(e, case.clone(), &k, &sql, m, ci, seed);
+                    continue;
+                }
+            };
+            let mut rows = out.rows;
+            if !ordered {
+                rows.sort();
+            }
+            if dynf {
+                e.on_runs += 1;
+                e.plans_with_dynf += out.plan_has_dynf as u64;
+                e.populated += out.dynf_populated as u64;
+                e.runs_scan_pruned += (out.pruned > 0) as u64;
+            }
+            if rows != expect {
+                viol(e, case.clone(), &k, &sql, format!("result {rows:?} differs from the specification's {expect:?}"), ci, seed);
+            }
+            e.distinct.insert(format!("{}|{}|{}|{}|{}|{}", case["jt"], k.tp, k.partitioned, k.pushdown, k.inlist_small, dynf));
+        }
+    }
+    e.evals += 1;
+    if e.samples.is_empty() && kind == "join" && expect.len() >= 2 {
+        e.samples.push(json!({"case": case, "sql": sql, "observed": "identical to the specification's result with dynamic filter pushdown on and off in every partition mode"}));
+    }
+    Ok(())
+}
+
+/// seeded larger tables: differential on vs off (+ a sort-based reference for top-k)
+fn e2e_random(rt: &tokio::runtime::Runtime, e: &mut E2e, i: usize, seed: u64, full: bool) -> Result<(), String> {
+    let mut rng = StdRng::seed_from_u64(seed * 424_243 + i as u64);
+    let tmp = tempfile::tempdir().map_err(|e| e.to_string())?;
+    let (ldir, rdir) = (tmp.path().join("l"), tmp.path().join("r"));
+    let nb = [1usize, 3, 20, 200][rng.random_range(0..4)] + rng.random_range(0..5);
+    let np = rng.random_range(50..1500);
+    let dom = [5i64, 40, 1000, 100000][rng.random_range(0..4)];
+    let two = rng.random_bool(0.4);
+    let strk = rng.random_bool(0.3);
+    let mk = |n: usize, lo: i64, hi: i64, rng: &mut StdRng, base: i64| -> Table {
+        let k1: Vec<Option<i64>> = (0..n).map(|_| if rng.random_bool(0.05) { None } else { Some(rng.random_range(lo..hi)) }).collect();
+        let k2: Vec<Option<String>> = (0..n).map(|_| if rng.random_bool(0.05) { None } else { Some(format!("s{}", rng.random_range(0..4))) }).collect();
+        let id: Vec<i64> = (0..n as i64).map(|x| base + x).collect();
+        let mut cols: Vec<(String, ArrayRef)> = vec![("k".into(), Arc::new(Int64Array::from(k1)))];
+        cols.push(("k2".into(), Arc::new(StringArray::from(k2))));
+        cols.push(("id".into(), Arc::new(Int64Array::from(id))));
+        Table { cols }
+    };
+    // the build side covers a sub-range of the probe domain so that bounds / membership filters prune
+    let blo = rng.random_range(0..dom);
+    let bhi = (blo + rng.random_range(1..=dom)).min(dom + 1).max(blo + 1);
+    let small_left = rng.random_bool(0.5);
+    let (l, r) = if small_left { (mk(nb, blo, bhi, &mut rng, 1_000_000), mk(np, 0, dom, &mut rng, 2_000_000)) } else { (mk(np, 0, dom, &mut rng, 1_000_000), mk(nb, blo, bhi, &mut rng, 2_000_000)) };
+    write_table(&ldir, &l, rng.random_range(1..=4), [16usize, 100, 100000][rng.random_range(0..3)])?;
+    write_table(&rdir, &r, rng.random_range(1..=4), [16usize, 100, 100000][rng.random_range(0..3)])?;
+    let tables: Vec<(&str, &std::path::Path)> = vec![("l", ldir.as_path()), ("r", rdir.as_path())];
+    let jts = ["Inner", "Left", "Right", "Full", "LeftSemi", "LeftAnti", "RightSemi", "RightAnti"];
+    let jt = jts[i % 8];
+    let keys: Vec<&str> = if two { vec!["k", "k2"] } else if strk { vec!["k2"] } else { vec!["k"] };
+    let mut sqls = vec![(join_sql(jt, &keys), false)];
+    // top-k over the larger table, total order through id
+    let big = if small_left { "r" } else { "l" };
+    let desc = rng.random_bool(0.5);
+    let nf = rng.random_bool(0.5);
+    let kk = [1usize, 5, 37][rng.random_range(0..3)];
+    sqls.push((format!("SELECT k, k2, id FROM {big} ORDER BY k {} NULLS {}, id LIMIT {kk}", if desc { "DESC" } else { "ASC" }, if nf { "FIRST" } else { "LAST" }), true));
+    sqls.push((format!("SELECT l.id, r.id FROM l JOIN r ON l.k = r.k ORDER BY r.id DESC, l.id LIMIT {kk}"), true));
+    for (sql, ordered) in sqls {
+        let mut reference: Option<Vec<String>> = None;
+        for k in all_knobs(&mut rng, full) {
+            for dynf in [false, true] {
+                let k = Knobs { dynf, ..k.clone() };
+                e.queries += 1;
+                let out = match run_sql(rt, &k, &tables, &sql) {
+                    Ok(o) => o,
+                    Err(m) => {
+                        viol(e, json!({"random_case": i, "jt": jt}), &k, &sql, m, i, seed);
+                        continue;
+                    }
+                };
+                let mut rows = out.rows;
+                if !ordered {
+                    rows.sort();
+                }
+                if dynf {
+                    e.on_runs += 1;
+                    e.plans_with_dynf += out.plan_has_dynf as u64;
+                    e.populated += out.dynf_populated as u64;
+                    e.runs_scan_pruned += (out.pruned > 0) as u64;
+                }
+                match &reference {
+                    None => reference = Some(rows), // first run is with dynamic filters OFF
+                    Some(rf) if *rf != rows => {
+                        let lost = rf.iter().filter(|x| !rows.contains(x)).take(3).cloned().collect::<Vec<_>>();
+                        viol(e, json!({"random_case": i, "jt": jt, "build_rows": nb, "probe_rows": np}), &k, &sql,
+                             format!("{} rows with dynamic filter pushdown {} vs {} rows in the reference run (pushdown off); e.g. missing {lost:?}", rows.len(), if dynf { "on" } else { "off" }, rf.len()), i, seed);
+                    }
+                    _ => {}
+                }
+                e.distinct.insert(format!("R{}|{}|{}|{}|{}|{}|{}", if ordered { "topk" } else { jt }, k.tp, k.partitioned, k.pushdown, k.inlist_small, dynf, keys.len()));
+            }
+        }
+    }
+    e.evals += 1;
+    Ok(())
+}
+
+fn e2e_mode(cases: &[Value], seed: u64, nrandom: usize) -> Value {
+    let rt = tokio::runtime::Builder::new_multi_thread().worker_threads(4).enable_all().build().unwrap();
+    let full = !util::tier_quick();
+    let mut e = E2e::default();
+    let mut tool_errors = vec![];
+    for (ci, case) in cases.iter().enumerate() {
+        if let Err(m) = e2e_case(&rt, &mut e, case, ci, seed, full) {
+            tool_errors.push(m);
+        }
+    }
+    for i in 0..nrandom {
+        if let Err(m) = e2e_random(&rt, &mut e, i, seed, full) {
+            tool_errors.push(m);
+        }
+    }
+    json!({"evaluations": e.evals, "queries": e.queries, "runs_with_pushdown_on": e.on_runs, "plans_with_dynamic_filter": e.plans_with_dynf,
+           "dynamic_filter_populated_after_run": e.populated, "pushdown_on_runs_where_the_scan_pruned_rows_or_row_groups": e.runs_scan_pruned, "per_join_type": e.join_types, "distinct_nontrivial": e.distinct.len(),
+           "violations": e.violations, "samples": e.samples, "tool_errors": tool_errors})
+}
+
+pub fn main() {
+    let mode = util::arg("--mode").unwrap_or_else(|| "filter".into());
+    let out = util::arg("--out").expect("--out");
+    let seed = util::seed();
+    let res = if let Some(rp) = util::arg("--replay") {
+        let v: Value = serde_json::from_str(&std::fs::read_to_string(&rp).expect("replay file")).expect("json");
+        let hs = v["harness_seed"].as_u64().unwrap_or(seed);
+        let ci = v["case_index"].as_u64().unwrap_or(0) as usize;
+        match v["kind"].as_str().unwrap_or("filter") {
+            "filter" => {
+                let mut cases = vec![json!({"nf": 1, "ops": []}); ci];
+                cases.push(v["violation"]["case"].clone());
+                let mut r = filter_mode(&cases, hs);
+                r["evaluations"] = json!(1);
+                r
+            }
+            "stress" => filter_mode(&[], hs),
+            _ => {
+                let rt = tokio::runtime::Builder::new_multi_thread().worker_threads(4).enable_all().build().unwrap();
+                let mut e = E2e::default();
+                let case = &v["violation"]["case"];
+                let r = if case.get("random_case").is_some() { e2e_random(&rt, &mut e, ci, hs, !util::tier_quick()) } else { e2e_case(&rt, &mut e, case, ci, hs, !util::tier_quick()) };
+                json!({"evaluations": 1, "violations": e.violations, "samples": [case], "tool_errors": r.err().map(|m| vec![m]).unwrap_or_default()})
+            }
+        }
+    } else {
+        let cases = util::read_ndjson(&util::arg("--in").expect("--in"));
+        match mode.as_str() {
+            "filter" => filter_mode(&cases, seed),
+            _ => e2e_mode(&cases, seed, util::arg("--random").and_then(|s| s.parse().ok()).unwrap_or(0)),
+        }
+    };
+    std::fs::write(&out, serde_json::to_string(&res).unwrap()).unwrap();
+    util::summary(json!({"evaluations": res["evaluations"], "violations": res["violations"].as_array().map(|a| a.len())}));
+}
